@@ -1,4 +1,237 @@
+/-
+  FalconModel.Isa.Ppc — reference interpreter for the 32-bit PowerPC instructions falcon's PPC dispatcher
+  (`lib/translator/ppc/mod.rs`) accepts.  THIS FILE IS THE SPECIFICATION of property C02 for PowerPC, written from the
+  instruction descriptions of the Power ISA (Book I) / PowerPC UISA (transcribed from memory: the manuals are not in the
+  sandbox); it decodes the raw big-endian word by bit fields, independent of capstone and of falcon's IL.
+
+  State: r0…r31, LR, CTR, XER[CA] (falcon's scalar `carry`), XER[SO] (the test state's `so`), the condition register as 32
+  bits (`cr.getLsbD (31 - i)` is CR bit i in IBM numbering; field n = bits 4n … 4n+3 = LT GT EQ SO), byte memory
+  (big-endian).  `Outcome.next s pc`: completed, next instruction at `pc`.
+-/
 import FalconModel.Lift
+
 namespace Falcon.Isa.Ppc
-def specLine (_bytes : List UInt8) (_addr : Nat) (_m : MachState) : String := "next=reserved ;  ; "
+
+abbrev Word := BitVec 32
+abbrev Reg := BitVec 5
+
+structure St where
+  gpr : Reg → Word
+  lr : Word
+  ctr : Word
+  ca : Bool
+  so : Bool
+  /-- CR bit `i` (IBM numbering: 0 = LT of CR0 … 31 = SO of CR7) -/
+  cr : Nat → Bool
+  mem : ByteMem
+
+inductive Outcome where
+  | next (s : St) (pc : Word)
+  | fault          -- unmapped byte
+  | invalid        -- invalid instruction form (e.g. lwzu with RA = 0 or RA = RT)
+  | reserved       -- not in the accepted subset
+
+namespace St
+def w (s : St) (i : Reg) (v : Word) : St := { s with gpr := fun j => if j = i then v else s.gpr j }
+/-- `(RA|0)` -/
+def r0 (s : St) (i : Reg) : Word := if i = 0 then 0 else s.gpr i
+/-- set CR field `bf` to `lt gt eq so` -/
+def setCr (s : St) (bf : Nat) (lt gt eq so : Bool) : St :=
+  { s with cr := fun i => if i = 4 * bf then lt else if i = 4 * bf + 1 then gt else if i = 4 * bf + 2 then eq
+                          else if i = 4 * bf + 3 then so else s.cr i }
+/-- record form (`Rc = 1`): CR0 ← signed comparison of the result with zero, and XER[SO] -/
+def record (s : St) (v : Word) : St := s.setCr 0 (v.slt 0) ((0 : Word).slt v) (v == 0) s.so
+end St
+
+def rdByte (m : ByteMem) (a : Word) : Option (BitVec 8) := (m a.toNat).map (fun b => BitVec.ofNat 8 b.toNat)
+def wrByte (m : ByteMem) (a : Word) (v : BitVec 8) : ByteMem :=
+  fun x => if x = a.toNat then some (UInt8.ofNat v.toNat) else m x
+
+def rdWord (m : ByteMem) (a : Word) : Option Word := do
+  let b0 ← rdByte m a
+  let b1 ← rdByte m (a + 1)
+  let b2 ← rdByte m (a + 2)
+  let b3 ← rdByte m (a + 3)
+  pure (b0 ++ b1 ++ b2 ++ b3)
+
+def wrWord (m : ByteMem) (a : Word) (v : Word) : ByteMem :=
+  let b (k : Nat) : BitVec 8 := v.extractLsb' (8 * k) 8
+  wrByte (wrByte (wrByte (wrByte m a (b 3)) (a + 1) (b 2)) (a + 2) (b 1)) (a + 3) (b 0)
+
+/-- `MASK(mb, me)`: ones from bit `mb` through bit `me` (IBM numbering, 0 = most significant), wrapping around -/
+def mask (mb me : Nat) : Word :=
+  BitVec.ofNat 32 ((List.range 32).foldl (fun acc i =>
+    let inside := if mb ≤ me then mb ≤ i ∧ i ≤ me else i ≤ me ∨ mb ≤ i
+    if inside then acc + 2 ^ (31 - i) else acc) 0)
+
+/-- the 33-bit sum `a + b + c`: (low 32 bits, carry out) -/
+def addc (a b : Word) (c : Bool) : Word × Bool :=
+  let t : BitVec 33 := a.zeroExtend 33 + b.zeroExtend 33 + (if c then 1 else 0)
+  (t.truncate 32, t.getLsbD 32)
+
+/-- `BO`/`BI` of the conditional branches: (new CTR, branch taken) -/
+def condOk (s : St) (bo : BitVec 5) (bi : Nat) : Word × Bool :=
+  let decr := !bo.getLsbD 2                      -- BO[2] = 0: decrement CTR
+  let ctr' := if decr then s.ctr - 1 else s.ctr
+  let ctrOk := bo.getLsbD 2 || ((ctr' != 0) != bo.getLsbD 1)
+  let condOk := bo.getLsbD 4 || (s.cr bi == bo.getLsbD 3)
+  (ctr', ctrOk && condOk)
+
+def field (w : Word) (lo n : Nat) : Nat := (w.toNat >>> lo) % 2 ^ n
+def rfield (w : Word) (lo : Nat) : Reg := BitVec.ofNat 5 (field w lo 5)
+
+def step (w : Word) (pc : Word) (s : St) : Outcome :=
+  let op := field w 26 6
+  let rt := rfield w 21; let ra := rfield w 16; let rb := rfield w 11
+  let si : BitVec 16 := BitVec.ofNat 16 (field w 0 16)
+  let xo := field w 1 10
+  let rc : Bool := field w 0 1 == 1
+  let nxt (s' : St) : Outcome := .next s' (pc + 4)
+  let fin (s' : St) (v : Word) : Outcome := nxt (if rc then s'.record v else s')
+  match op with
+  | 14 => nxt (s.w rt (s.r0 ra + si.signExtend 32))                                 -- addi / li
+  | 15 => nxt (s.w rt (s.r0 ra + (si ++ (0 : BitVec 16))))                           -- addis / lis
+  | 10 =>                                                                            -- cmpli (cmplwi: L = 0)
+    if field w 21 1 = 1 ∨ field w 22 1 = 1 then .reserved
+    else
+      let a := s.gpr ra; let b : Word := si.zeroExtend 32
+      nxt (s.setCr (field w 23 3) (a.ult b) (b.ult a) (a == b) s.so)
+  | 11 =>                                                                            -- cmpi (cmpwi: L = 0)
+    if field w 21 1 = 1 ∨ field w 22 1 = 1 then .reserved
+    else
+      let a := s.gpr ra; let b : Word := si.signExtend 32
+      nxt (s.setCr (field w 23 3) (a.slt b) (b.slt a) (a == b) s.so)
+  | 24 => nxt (s.w ra (s.gpr rt ||| si.zeroExtend 32))                               -- ori (nop)
+  | 18 =>                                                                            -- b / bl (AA = 0)
+    if field w 1 1 = 1 then .reserved
+    else
+      let li : BitVec 24 := BitVec.ofNat 24 (field w 2 24)
+      let target := pc + ((li ++ (0 : BitVec 2)).signExtend 32)
+      .next (if field w 0 1 = 1 then { s with lr := pc + 4 } else s) target
+  | 16 =>                                                                            -- bc (AA = 0)
+    if field w 1 1 = 1 then .reserved
+    else
+      let bd : BitVec 14 := BitVec.ofNat 14 (field w 2 14)
+      let (ctr', ok) := condOk s rt (field w 16 5)
+      let s1 := { s with ctr := ctr' }
+      let s2 := if field w 0 1 = 1 then { s1 with lr := pc + 4 } else s1
+      .next s2 (if ok then pc + ((bd ++ (0 : BitVec 2)).signExtend 32) else pc + 4)
+  | 19 =>
+    if xo = 16 then                                                                  -- bclr
+      let (ctr', ok) := condOk s rt (field w 16 5)
+      let target := s.lr &&& 0xfffffffc
+      let s1 := { s with ctr := ctr' }
+      let s2 := if field w 0 1 = 1 then { s1 with lr := pc + 4 } else s1
+      .next s2 (if ok then target else pc + 4)
+    else if xo = 528 then                                                            -- bcctr
+      if !rt.getLsbD 2 then .invalid
+      else
+        let ok := rt.getLsbD 4 || (s.cr (field w 16 5) == rt.getLsbD 3)
+        let s2 := if field w 0 1 = 1 then { s with lr := pc + 4 } else s
+        .next s2 (if ok then s.ctr &&& 0xfffffffc else pc + 4)
+    else .reserved
+  | 21 =>                                                                            -- rlwinm
+    let sh := field w 11 5; let mb := field w 6 5; let me := field w 1 5
+    let v := (s.gpr rt).rotateLeft sh &&& mask mb me
+    fin (s.w ra v) v
+  | 31 =>
+    let oe : Bool := field w 10 1 == 1
+    match field w 1 9, oe with
+    | 266, false => let v := s.gpr ra + s.gpr rb; fin (s.w rt v) v                    -- add
+    | 40, false => let v := ~~~(s.gpr ra) + s.gpr rb + 1; fin (s.w rt v) v            -- subf
+    | 202, false =>                                                                   -- addze
+      let (v, c) := addc (s.gpr ra) 0 s.ca
+      fin ({ s with ca := c }.w rt v) v
+    | _, _ =>
+      match xo with
+      | 444 => let v := s.gpr rt ||| s.gpr rb; fin (s.w ra v) v                        -- or (mr)
+      | 824 =>                                                                        -- srawi
+        let sh := field w 11 5
+        let x := s.gpr rt
+        let v := x.sshiftRight sh
+        let lost := x &&& (BitVec.ofNat 32 (2 ^ sh - 1))
+        fin ({ s with ca := x.msb && lost != 0 }.w ra v) v
+      | 339 =>                                                                        -- mfspr
+        let spr := field w 16 5 + 32 * field w 11 5
+        if spr = 8 then nxt (s.w rt s.lr) else if spr = 9 then nxt (s.w rt s.ctr) else .reserved
+      | 467 =>                                                                        -- mtspr
+        let spr := field w 16 5 + 32 * field w 11 5
+        if spr = 8 then nxt { s with lr := s.gpr rt } else if spr = 9 then nxt { s with ctr := s.gpr rt } else .reserved
+      | _ => .reserved
+  | 32 | 33 | 34 =>                                                                   -- lwz lwzu lbz
+    let upd := op = 33
+    if upd ∧ (ra = 0 ∨ ra = rt) then .invalid
+    else
+      let ea := (if upd then s.gpr ra else s.r0 ra) + si.signExtend 32
+      let v : Option Word := if op = 34 then (rdByte s.mem ea).map (·.zeroExtend 32) else rdWord s.mem ea
+      match v with
+      | none => .fault
+      | some v => nxt (if upd then (s.w rt v).w ra ea else s.w rt v)
+  | 36 | 37 =>                                                                        -- stw stwu
+    let upd := op = 37
+    if upd ∧ ra = 0 then .invalid
+    else
+      let ea := (if upd then s.gpr ra else s.r0 ra) + si.signExtend 32
+      let s1 := { s with mem := wrWord s.mem ea (s.gpr rt) }
+      nxt (if upd then s1.w ra ea else s1)
+  | 47 =>                                                                             -- stmw
+    let ea := s.r0 ra + si.signExtend 32
+    let n := 32 - rt.toNat
+    nxt { s with mem := (List.range n).foldl (fun m k =>
+      wrWord m (ea + BitVec.ofNat 32 (4 * k)) (s.gpr (rt + BitVec.ofNat 5 k))) s.mem }
+  | _ => .reserved
+
+/-! ### the tie to falcon's scalars, and the specification's post line for the driver -/
+
+def crNames : List String :=
+  (List.range 8).flatMap (fun i => ["lt", "gt", "eq", "so"].map (fun f => s!"cr{i}-{f}"))
+
+def v32 (σ : State) (n : String) : Word :=
+  match σ.get n with
+  | some c => BitVec.ofNat 32 c.val
+  | none => 0
+
+def vb (σ : State) (n : String) : Bool :=
+  match σ.get n with
+  | some c => c.val % 2 = 1
+  | none => false
+
+def absState (σ : State) : St :=
+  { gpr := fun i => v32 σ s!"r{i.toNat}"
+    lr := v32 σ "lr", ctr := v32 σ "ctr", ca := vb σ "carry", so := vb σ "so"
+    cr := fun i => vb σ (crNames.getD i "")
+    mem := σ.mem }
+
+def w32Str (v : Word) : String := "0x" ++ Const.hexDigits v.toNat ++ ":32"
+def b1Str (b : Bool) : String := if b then "0x1:1" else "0x0:1"
+
+def windowsStr (mem : ByteMem) (ws : List (Nat × Nat)) : String :=
+  ",".intercalate (ws.map fun (a, len) =>
+    Fil.hex a ++ ":" ++ MachState.bytesHex ((List.range len).map fun i => (mem (a + i)).getD 0))
+
+def wordsOfBE : List UInt8 → List Word
+  | a :: b :: c :: d :: rest => BitVec.ofNat 32 (((a.toNat * 256 + b.toNat) * 256 + c.toNat) * 256 + d.toNat) :: wordsOfBE rest
+  | _ => []
+
+/-- delta post line of the specification (same shape as the harness's) -/
+def specLine (bytes : List UInt8) (addr : Nat) (m : MachState) : String :=
+  let σ₀ := m.toState
+  let ws := m.mem.map fun (a, bs) => (a, bs.length)
+  let pre (n : String) : String := match m.regs.lookup n with | some c => toString c | none => "-"
+  let unchanged (head : String) := "next=" ++ head ++ " ;  ; " ++ windowsStr σ₀.mem ws
+  match wordsOfBE bytes with
+  | [w] =>
+    match step w (BitVec.ofNat 32 addr) (absState σ₀) with
+    | .next s pc =>
+      let regs : List (String × String) :=
+        (List.range 32).map (fun k => (s!"r{k}", w32Str (s.gpr (BitVec.ofNat 5 k)))) ++
+        [("lr", w32Str s.lr), ("ctr", w32Str s.ctr), ("carry", b1Str s.ca)] ++
+        crNames.zipIdx.map (fun (n, i) => (n, b1Str (s.cr i)))
+      let ch := regs.filterMap fun (n, v) => if v = pre n then none else some (n ++ "=" ++ v)
+      "next=" ++ Fil.hex pc.toNat ++ " ; " ++ ",".intercalate ch ++ " ; " ++ windowsStr s.mem ws
+    | .fault => unchanged "fault"
+    | .invalid => unchanged "unpredictable"
+    | .reserved => unchanged "reserved"
+  | _ => unchanged "reserved"
+
 end Falcon.Isa.Ppc
